@@ -159,7 +159,7 @@ namespace mon
    constexpr std::size_t chunk_a = 64, chunk_b = 64;
 #endif
    template< typename G >
-   void run_entry( const runreq& rq, runres& rs )
+   void run_entry_impl( const runreq& rq, runres& rs )
    {
       const std::size_t n = std::size_t( rq.e - rq.b );
       switch( rq.combo ) {
@@ -231,7 +231,7 @@ namespace mon
    }
 
    template< typename G >
-   void run_entry( const runreq& rq, runres& rs )
+   void run_entry_impl( const runreq& rq, runres& rs )
    {
       input_t in( rq.b, rq.e, "x" );
       try {
@@ -250,7 +250,7 @@ namespace mon
    inline const config CONFIG = [] { config c = base_config( "tree" ); c.tree = true; c.selvariant = MON_SELV; return c; }();
 #elif defined( MON_PLAIN )
    template< typename G >
-   void run_entry( const runreq& rq, runres& rs )
+   void run_entry_impl( const runreq& rq, runres& rs )
    {
       input_t in( rq.b, rq.e, "x" );
       try {
@@ -280,7 +280,7 @@ namespace mon
    struct null_buf : std::streambuf { int overflow( int c ) override { return c; } };
 
    template< typename G >
-   void run_entry( const runreq& rq, runres& rs )
+   void run_entry_impl( const runreq& rq, runres& rs )
    {
       input_t in( rq.b, rq.e, "x" );
       pegtl::coverage_result cov;
@@ -310,7 +310,7 @@ namespace mon
    inline const config CONFIG = [] { config c = base_config( "client" ); c.client = MON_CLIENT; return c; }();
 #else
    template< typename G >
-   void run_entry( const runreq& rq, runres& rs )
+   void run_entry_impl( const runreq& rq, runres& rs )
    {
       input_t in( rq.b, rq.e, "x" );
       try {
@@ -337,4 +337,31 @@ namespace mon
 #endif
 #endif
 #endif
+
+   // MON_INFLIGHT: the whole parsing run happens while another exception is in flight (it is started from the destructor of
+   // a local object during stack unwinding, as a scope guard or an RAII logger would): nothing in the library may mistake
+   // "some exception is in flight" for "this scope is being left by an exception"
+   struct in_flight_marker {};
+   template< typename G >
+   struct unwinding_runner
+   {
+      const runreq& rq;
+      runres& rs;
+      ~unwinding_runner() { run_entry_impl< G >( rq, rs ); }   // run_entry_impl catches everything
+   };
+
+   template< typename G >
+   void run_entry( const runreq& rq, runres& rs )
+   {
+#if defined( MON_INFLIGHT )
+      try {
+         unwinding_runner< G > u{ rq, rs };
+         throw in_flight_marker{};
+      }
+      catch( const in_flight_marker& ) {
+      }
+#else
+      run_entry_impl< G >( rq, rs );
+#endif
+   }
 }  // namespace mon
